@@ -527,3 +527,53 @@ def no_yield_between(tree, rep, rule, rel, cls, fname, first_call, then_calls, w
     rep.check(rule, "%s.%s: no yield point between %s() and %s (%d yield points in the function)" % (cls, fname, first_call, "/".join(then_calls), len(ys)),
               not bad, site(g.stmt[bad[0]] if bad and isinstance(g.stmt[bad[0]], ast.AST) else fn, rel), key="%s:%s.%s:no-yield-in-window" % (rule, cls, fname),
               what="%s.%s gives up the reactor between %s() and %s: %s" % (cls, fname, first_call, "/".join(then_calls), why))
+
+
+def numeric_phase_pattern_anchored(tree, rep, rule, rel="src/wormhole/_boss.py", cls="Boss", fname="got_message"):
+    """the test that sends a phase to int(phase) admits only strings int() accepts: one or more digits, anchored at both ends (`$` is
+    enough here - int() tolerates the trailing newline `$` lets through).  A pattern that is open at one end sends a correctly encrypted
+    peer message with a phase like `1x` into int(): ValueError inside ws_message, reported by close() as an internal error - unknown phases
+    are to be ignored."""
+    import re._parser as sre
+    from .astutil import const
+    fn = tree.func(rel, cls, fname)
+    consts = tree.module_constants(rel)
+    cands = []
+    for c in ast.walk(fn):
+        if not isinstance(c, ast.Call):
+            continue
+        d = dotted(c.func) or ""
+        pat = how = None
+        if d in ("re.search", "re.match", "re.fullmatch") and c.args and isinstance(const(c.args[0]), str):
+            pat, how = const(c.args[0]), d.split(".")[1]
+        elif isinstance(c.func, ast.Attribute) and c.func.attr in ("search", "match", "fullmatch") and isinstance(c.func.value, ast.Name):
+            comp = consts.get(c.func.value.id)
+            if isinstance(comp, ast.Call) and dotted(comp.func) == "re.compile" and comp.args and isinstance(const(comp.args[0]), str):
+                pat, how = const(comp.args[0]), c.func.attr
+        if pat is not None:
+            cands.append((pat, how, c))
+    # the numeric-phase pattern: the one without a literal prefix
+    num = [(p, h, c) for (p, h, c) in cands if "dilate" not in p]
+    if len(num) != 1:
+        raise AnalysisError("%s.%s: expected one numeric phase pattern, found %d" % (cls, fname, len(num)))
+    pat, how, call = num[0]
+    try:
+        items = list(sre.parse(pat))
+    except Exception as e:
+        raise AnalysisError("cannot parse pattern %r: %s" % (pat, e))
+    names = [str(op) for (op, av) in items]
+    start_ok = how in ("match", "fullmatch") or (names and names[0] == "AT" and str(items[0][1]) in ("AT_BEGINNING", "AT_BEGINNING_STRING"))
+    end_ok = how == "fullmatch" or (names and names[-1] == "AT" and str(items[-1][1]) in ("AT_END", "AT_END_STRING"))
+    core = [it for it in items if str(it[0]) != "AT"]
+    digits_ok = False
+    if len(core) == 1 and str(core[0][0]) == "MAX_REPEAT":
+        lo, hi, sub = core[0][1]
+        sub = list(sub)
+        if lo >= 1 and len(sub) == 1 and str(sub[0][0]) == "IN":
+            members = list(sub[0][1])
+            digits_ok = all((str(k) == "CATEGORY" and str(v) == "CATEGORY_DIGIT") or (str(k) == "RANGE" and v == (48, 57)) for (k, v) in members)
+    ok = bool(start_ok and end_ok and digits_ok)
+    rep.check(rule, "%s.%s: the numeric-phase pattern %r (%s) is one or more digits anchored at both ends" % (cls, fname, pat, how), ok, site(call, rel),
+              key="%s:%s:numeric-phase-anchored" % (rule, fname),
+              what="%s.%s sends phases matching %r (re.%s) to int(): a peer phase such as '1x' raises ValueError in the handler of a peer message and "
+                   "close() reports an internal error instead of ignoring the unknown phase" % (cls, fname, pat, how))
